@@ -51,6 +51,7 @@ def type_class(t):
 
 
 def gen_cases(ctx):
+    yield from gen_sweeps(ctx)
     rng = ctx.sub_rng("c05")
     ntop = 48 if ctx.tier == "quick" else 4000
     tperm = list(range(128))
@@ -126,6 +127,25 @@ def gen_cases(ctx):
                "profiles": {str(k): v for k, v in profiles.items()}, "frag_off": frag_off,
                "msgs": msgs, "seed": rng.getrandbits(30), "hostile": hostile, "stall": stall,
                "id_start": {str(a): rng.choice([0, 0, 7, 65530]) for a in nodes}}
+
+
+def gen_sweeps(ctx):
+    """systematic sweeps on a fixed small tree: every user type 0..127 over a 3-hop route through
+    two full (queueing) relays, and every length 0..144 over a direct link (fragmented multi-hop
+    routes are the known finding and would hide what a length-dependent change does)"""
+    nodes = [0, 0o1, 0o2, 0o12]
+    base = {"nodes": nodes, "kinds": {str(a): "net" for a in nodes}, "frag_off": [], "hostile": False,
+            "stall": None, "id_start": {str(a): 0 for a in nodes}}
+    prof = lambda k: {str(a): N.rand_profile(ctx.sub_rng("c05s", k, a), base=40000) for a in nodes}
+    for k in range(4):
+        msgs = [{"src": 0o1 if t % 2 else 0o12, "dst": 0o12 if t % 2 else 0o1, "len": 5 + t % 7, "type": t}
+                for t in range(k * 32, k * 32 + 32)]
+        yield dict(base, msgs=msgs, seed=900 + k, profiles=prof(k))
+    lens = list(range(145))
+    for k in range(5):
+        msgs = [{"src": 0o1 if n % 2 else 0, "dst": 0 if n % 2 else 0o1, "len": n, "type": [1, 2, 7, 64, 65, 127][n % 6]}
+                for n in lens[k * 29:(k + 1) * 29]]
+        yield dict(base, msgs=msgs, seed=950 + k, profiles=prof(10 + k))
 
 
 def run_case(ctx, case):
